@@ -320,7 +320,10 @@ func (session *BaseInSession) handleRtcpPacket(b []byte, rAddr *net.UDPAddr) err
 			session.mu.Unlock()
 			if rrBuf != nil {
 				if rAddr != nil {
-					_ = session.audioRtcpConn.Write2Addr(rrBuf, rAddr)
+					// the sr may arrive on the rtcp socket of the other track while this track has no udp socket (not setup, or setup interleaved)
+					if session.audioRtcpConn != nil {
+						_ = session.audioRtcpConn.Write2Addr(rrBuf, rAddr)
+					}
 				} else {
 					_ = session.cmdSession.WriteInterleavedPacket(rrBuf, session.audioRtcpChannel)
 				}
@@ -332,7 +335,10 @@ func (session *BaseInSession) handleRtcpPacket(b []byte, rAddr *net.UDPAddr) err
 			session.mu.Unlock()
 			if rrBuf != nil {
 				if rAddr != nil {
-					_ = session.videoRtcpConn.Write2Addr(rrBuf, rAddr)
+					// the sr may arrive on the rtcp socket of the other track while this track has no udp socket (not setup, or setup interleaved)
+					if session.videoRtcpConn != nil {
+						_ = session.videoRtcpConn.Write2Addr(rrBuf, rAddr)
+					}
 				} else {
 					_ = session.cmdSession.WriteInterleavedPacket(rrBuf, session.videoRtcpChannel)
 				}
